@@ -181,4 +181,181 @@ theorem digit_corruption_rejected (l : Str) (i : Nat) (c d : Char)
 example : LineOk "1 25544U 98067A   08264.51782528 -.00002182  00000-0 -11606-4 0  2927".toList := by
   refine ⟨by decide, 7, by decide, by decide⟩
 
+/-! ## Clause 1 (epoch part) — the epoch is preserved to 1e-8 day -/
+
+theorem roundDiv_mul (x : Int) (a : Nat) (ha : 0 < a) (c : Int) : roundDiv (x * c * a) a = x * c := by
+  unfold roundDiv
+  have h1 : x * c * (a : Int) / (a : Int) = x * c := Int.mul_ediv_cancel _ (by omega)
+  have h2 : x * c * (a : Int) % (a : Int) = 0 := Int.mul_emod_left _ _
+  simp only [h1, h2]
+  rw [if_pos (by omega)]
+
+/-- **epoch to 1e-8 day**: the day-of-year field `day8 · 1e-8` of year `y` is read as exactly `(day8 − 1e8) · 864`
+microseconds after 1 January (1e-8 day is a whole number, 864, of the microseconds `datetime` counts in), that
+instant lies in year `y`, and the writer's day-of-year computation returns `day8`. -/
+theorem epoch_roundtrip (y day8 : Nat) (h1 : 100000000 ≤ day8)
+    (h2 : day8 < (if isLeap y then 367 else 366) * 100000000) :
+    epochMicros ⟨false, day8, 8⟩ = ((day8 : Int) - 100000000) * 864 ∧
+    normYear 8 y (((day8 : Int) - 100000000) * 864) = some (y, ((day8 : Int) - 100000000) * 864) ∧
+    ((((day8 : Int) - 100000000) * 864) / 86400000000 + 1) * 100000000
+      + roundDiv ((((day8 : Int) - 100000000) * 864) % 86400000000 * 100000000) 86400000000 = day8 := by
+  refine ⟨?_, ?_, ?_⟩
+  · unfold epochMicros
+    simp only [Bool.false_eq_true, if_false]
+    have : ((8 : Int) ≥ 0) := by omega
+    simp only [this, if_true]
+    have t8 : (8 : Int).toNat = 8 := rfl
+    have p1 : (10 : Int) ^ 8 = 100000000 := by decide
+    have p2 : ((10 ^ 8 : Nat) : Int) = 100000000 := by decide
+    have e : (((day8 : Int) - (10 : Int) ^ (8 : Int).toNat) * 86400000000) = ((day8 : Int) - 100000000) * 864 * ((10 ^ (8 : Int).toNat : Nat) : Int) := by
+      rw [t8, p1, p2]; omega
+    rw [e, roundDiv_mul _ _ (by rw [t8]; decide)]
+  · show normYear (7 + 1) y _ = _
+    unfold normYear
+    have hpos : ¬ (((day8 : Int) - 100000000) * 864 < 0) := by omega
+    have hlt : ¬ (((day8 : Int) - 100000000) * 864 ≥ yearMicros y) := by
+      unfold yearMicros
+      split at h2 <;> simp_all <;> omega
+    simp [hpos, hlt]
+  · have e : (((day8 : Int) - 100000000) * 864) % 86400000000 * 100000000
+        = (((day8 : Int) - 100000000) % 100000000) * 1 * ((86400000000 : Nat) : Int) := by omega
+    rw [e, roundDiv_mul _ _ (by decide)]
+    omega
+
+
+example : (100000000 : Nat) ≤ 26451782528 ∧ 26451782528 < (if isLeap 2008 then 367 else 366) * 100000000 := by decide
+
+/-! ## Clause 4 — a multi-TLE text yields exactly its valid entries -/
+
+/-- lines that `from_string` skips: blank or starting with the comment mark -/
+def skipped (l : Str) : Bool := (strip l).isEmpty || startsWith l ['#']
+
+/-- an entry of a multi-TLE text: optional name line, a line starting with `1 `, a line starting with `2 ` -/
+structure Block where
+  name : Option Str
+  l1 : Str
+  l2 : Str
+
+def Block.lines (b : Block) : List Str := b.name.toList ++ [b.l1, b.l2]
+
+/-- the two element lines kept their line numbers (whatever else happened to them), no line is blank or a comment,
+and the name line (if any) is not mistaken for an element line -/
+structure Block.Framed (b : Block) : Prop where
+  h1 : startsWith b.l1 ['1', ' '] = true
+  h2 : startsWith b.l2 ['2', ' '] = true
+  s1 : skipped b.l1 = false
+  s2 : skipped b.l2 = false
+  hn : ∀ n, b.name = some n → skipped n = false ∧ startsWith n ['1', ' '] = false ∧ startsWith n ['2', ' '] = false
+  /-- constructing the entry fails, if it fails, with a `ValueError` (what `from_string` catches) -/
+  hv : ∀ e, parseTle b.lines = .error e → isValueError e = true
+
+theorem startsWith_2_not_1 (l : Str) (h : startsWith l ['2', ' '] = true) : startsWith l ['1', ' '] = false := by
+  cases l with
+  | nil => simp [startsWith, List.isPrefixOf] at h
+  | cons c cs =>
+    simp only [startsWith, List.isPrefixOf, Bool.and_eq_true, beq_iff_eq] at h
+    have : c = '2' := h.1.symm
+    subst this
+    simp [startsWith, List.isPrefixOf]
+
+theorem fs_block (st : FsState) (b : Block) (hb : b.Framed) (hc : st.cache = []) (ha : st.abort = none) :
+    let st' := b.lines.foldl fsStep st
+    st'.cache = [] ∧ st'.abort = none ∧ st'.out = st.out ++ ((parseTle b.lines).toOption).toList := by
+  obtain ⟨h1, h2, s1, s2, hn, hv⟩ := hb
+  have h21 := startsWith_2_not_1 _ h2
+  unfold skipped at s1 s2
+  cases hname : b.name with
+  | none =>
+    have hl : b.lines = [b.l1, b.l2] := by simp [Block.lines, hname]
+    rw [hl] at hv ⊢
+    simp only [List.foldl_cons, List.foldl_nil]
+    have e1 : fsStep st b.l1 = { st with cache := [b.l1] } := by
+      unfold fsStep; simp [ha, s1, h1, hc]
+    rw [e1]
+    unfold fsStep
+    simp only [ha, Option.isSome_none, Bool.false_eq_true, if_false, s2, h21, h2, if_true, List.cons_append, List.nil_append]
+    cases hp : parseTle [b.l1, b.l2] with
+    | ok p => simp [Except.toOption]
+    | error e => simp [hv e hp, Except.toOption]
+  | some n =>
+    obtain ⟨sn, n1, n2⟩ := hn n hname
+    unfold skipped at sn
+    have hl : b.lines = [n, b.l1, b.l2] := by simp [Block.lines, hname]
+    rw [hl] at hv ⊢
+    simp only [List.foldl_cons, List.foldl_nil]
+    have e0 : fsStep st n = { st with cache := [n] } := by
+      unfold fsStep; simp [ha, sn, n1, n2]
+    rw [e0]
+    have e1 : fsStep { st with cache := [n] } b.l1 = { st with cache := [n, b.l1] } := by
+      unfold fsStep; simp [ha, s1, h1]
+    rw [e1]
+    unfold fsStep
+    simp only [ha, Option.isSome_none, Bool.false_eq_true, if_false, s2, h21, h2, if_true, List.cons_append, List.nil_append]
+    cases hp : parseTle [n, b.l1, b.l2] with
+    | ok p => simp [Except.toOption]
+    | error e => simp [hv e hp, Except.toOption]
+
+/-- **a multi-TLE text yields exactly its valid entries** — partial: for every text made of entries whose element
+lines kept their `1 ` / `2 ` prefixes (each may be corrupted anywhere else: digits, length, checksum; with or without
+name line), `from_string` yields, in order, exactly the entries that `Tle(...)` accepts and nothing else. -/
+theorem from_string_yields_valid_entries_partial (blocks : List Block) (hb : ∀ b ∈ blocks, b.Framed) :
+    (fromString (blocks.flatMap Block.lines)).out = blocks.filterMap (fun b => (parseTle b.lines).toOption) ∧
+    (fromString (blocks.flatMap Block.lines)).abort = none := by
+  unfold fromString
+  have key : ∀ (bs : List Block) (st : FsState), (∀ b ∈ bs, b.Framed) → st.cache = [] → st.abort = none →
+      ((bs.flatMap Block.lines).foldl fsStep st).out = st.out ++ bs.filterMap (fun b => (parseTle b.lines).toOption) ∧
+      ((bs.flatMap Block.lines).foldl fsStep st).abort = none := by
+    intro bs
+    induction bs with
+    | nil => intro st _ _ ha; simp [ha]
+    | cons b bs ih =>
+      intro st hall hc ha
+      obtain ⟨c', a', o'⟩ := fs_block st b (hall b (by simp)) hc ha
+      simp only [List.flatMap_cons, List.foldl_append]
+      obtain ⟨r1, r2⟩ := ih (b.lines.foldl fsStep st) (fun x hx => hall x (by simp [hx])) c' a'
+      refine ⟨?_, r2⟩
+      rw [r1, o', List.filterMap_cons]
+      cases hp : (parseTle b.lines).toOption with
+      | some p => simp
+      | none => simp
+  have := key blocks {} hb rfl rfl
+  simpa using this
+
+
+def refL1 : Str := "1 25544U 98067A   08264.51782528 -.00002182  00000-0 -11606-4 0  2927".toList
+def refL2 : Str := "2 25544  51.6416 247.4627 0006703 130.5360 325.0288 15.72125391563537".toList
+def refL2bad : Str := "2 25544  51.6416 247.4627 0006703 130.5360 325.0288 15.72125391563538".toList
+
+/-- the hypotheses of `from_string_yields_valid_entries_partial` are met by a named valid entry and by an unnamed
+entry with a wrong checksum -/
+example : (Block.mk (some "ISS (ZARYA)".toList) refL1 refL2).Framed ∧ (Block.mk none refL1 refL2bad).Framed := by
+  refine ⟨⟨by decide, by decide, by decide, by decide, ?_, ?_⟩, ⟨by decide, by decide, by decide, by decide, ?_, ?_⟩⟩
+  · intro n h; cases h; decide
+  · intro e h
+    have hh : (parseTle (Block.mk (some "ISS (ZARYA)".toList) refL1 refL2).lines).toOption.isSome = true := by decide
+    rw [h] at hh; simp [Except.toOption] at hh
+  · intro n h; cases h
+  · intro e h
+    have hh : (match parseTle (Block.mk none refL1 refL2bad).lines with
+      | .error e => isValueError e | .ok _ => false) = true := by decide
+    rw [h] at hh; exact hh
+
+/-! ## Clause 1 on the reference TLEs of the test-suite (kernel evaluation of the model) -/
+
+/-- parse → orbit → write reproduces the text, name line included, for the three TLEs of tests/io/test_tle.py
+(four-digit element numbers, empty designator, negative ṅ, zero and signed drag terms) -/
+theorem reference_tles_roundtrip :
+    (rewrite ["ISS (ZARYA)".toList, refL1, refL2]).toOption.map tleStr = some ["ISS (ZARYA)".toList, refL1, refL2] ∧
+    (rewrite ["UNKNOWN".toList,
+      "1 81014U          19071.50347758  .00025823  00000-0  22146-2 0  9998".toList,
+      "2 81014  51.3262 117.7468 2910898 126.0686 264.6106  9.45290855184707".toList]).toOption.map tleStr = some ["UNKNOWN".toList,
+      "1 81014U          19071.50347758  .00025823  00000-0  22146-2 0  9998".toList,
+      "2 81014  51.3262 117.7468 2910898 126.0686 264.6106  9.45290855184707".toList] ∧
+    (rewrite [
+      "1 00014U          19071.50347758  .00025823  00000-0  22146-2 0  9999".toList,
+      "2 00014  51.3262 117.7468 2910898 126.0686 264.6106  9.45290855184708".toList]).toOption.map tleStr = some [
+      "1 00014U          19071.50347758  .00025823  00000-0  22146-2 0  9999".toList,
+      "2 00014  51.3262 117.7468 2910898 126.0686 264.6106  9.45290855184708".toList] := by decide
+
+
 end BeyondVerif.C12
